@@ -2,6 +2,7 @@ package main
 
 import (
 	"encoding/json"
+	"net"
 	"sort"
 	"sync"
 	"time"
@@ -22,6 +23,7 @@ type timeline struct {
 	procs  []*psim.Proc
 	victim string
 	lost   bool
+	proxyClosed bool
 	stop   chan struct{}
 	done   chan struct{}
 }
@@ -66,8 +68,29 @@ func (t *timeline) observe(p *psim.Proc) {
 		sort.Slice(ev.Views, func(i, j int) bool { return ev.Views[i].N < ev.Views[j].N })
 		t.add("view/"+p.ID, ev)
 	}
+	// the victim's proxy port: once it refuses connections, the node's registry is read again
+	t.mu.Lock()
+	watchProxy := t.lost && p.ID == t.victim && !t.proxyClosed
+	after := ""
+	if t.proxyClosed && p.ID == t.victim {
+		after = "proxy-closed"
+	}
+	t.mu.Unlock()
+	if watchProxy {
+		c, err := net.DialTimeout("tcp", p.Proxy, 200*time.Millisecond)
+		if err == nil {
+			c.Close()
+		} else if !p.Exited() {
+			t.mu.Lock()
+			t.proxyClosed = true
+			t.last["reg/"+p.ID] = "" // log the next registry observation whatever it shows
+			t.mu.Unlock()
+			t.add("proxy/"+p.ID, TLE{K: "proxy", O: p.ID, Views: []TLView{}, Reg: []string{}})
+			after = "proxy-closed"
+		}
+	}
 	if m, err := p.UpstreamEndpoints(); err == nil {
-		ev := TLE{K: "reg", O: p.ID, Views: []TLView{}, Reg: []string{}}
+		ev := TLE{K: "reg", O: p.ID, Views: []TLView{}, Reg: []string{}, After: after}
 		for e, c := range m {
 			if c > 0 {
 				ev.Reg = append(ev.Reg, e)
